@@ -284,8 +284,10 @@ def c_labels(ls):
 
 
 def c_symtab(tb):
-    scope, types = tb
-    return f"(mk_symtab {c_labels(scope)} {coq_list(f'({coq_str(n)}, {c_labels(l)})' for n, l in types)})"
+    scope, types = tb[0], tb[1]
+    ext = tb[2] if len(tb) > 2 else []
+    return (f"(mk_symtab {c_labels(scope)} {coq_list(f'({coq_str(n)}, {c_labels(l)})' for n, l in types)} "
+            f"{coq_list(f'({coq_str(n)}, {coq_str(i)})' for n, i in ext)})")
 
 
 # ----------------------------------------------------------------------------- abstract projects
@@ -300,6 +302,10 @@ INTRINSIC_FUNCS = ["size", "sum", "abs", "max", "min", "mod", "maxval", "int", "
                    "allocated", "present", "merge", "any", "count"]
 INTRINSIC_NAMED_PROCS = ["wait", "system", "flush", "rank", "time", "exit"]   # user procedures spelled like INTRINSICS entries
 ASSOC_NAMES = ["aa", "bb", "cc", "sel"]
+# the project's own external procedures (top level of a file), referenced through EXTERNAL declarations
+EXTERNAL_NAMES = ["ext_area", "ext_vol", "ext_report", "xsum", "ext_init", "callext"]
+EXTERNAL_FORMS_FUNC = ["attr", "attr", "pair", "pair", "pair_colon", "untyped"]
+EXTERNAL_FORMS_SUB = ["untyped", "untyped_colon"]
 LIT_BODIES = ["", "abc", "call q(1)", "x = g(2)", "it's", 'say "f(1)"', "(a,i0)", "if (f(x)) then", "obj%run()",
               "a(1)%b(2)", "100 format (i5)", "go to (1,2)"]
 NUMS = ["0", "1", "2", "3", "10", "42", "1.0", "2.5e0", "1.0e-3_dp", "3_8", ".true.", ".false."]
@@ -780,10 +786,20 @@ def gen_project(rng, knobs=None):
         internals = [gen_proc_shell(rng, n) for n in rng.sample(["helper", "show", "sum3", "iffy"], rng.choice([0, 1, 2]))]
         program = {"name": "main_p", "uses": [m["name"] for m in mods if rng.random() < 0.85], "procs": internals,
                    "unit": gen_proc_shell(rng, "main_p", "program")}
-    proj = {"modules": mods, "program": program, "knobs": knobs}
+    externals = []
+    if rng.random() < knobs.get("p_externals", 0.8):
+        for n in rng.sample(EXTERNAL_NAMES, rng.choice([1, 2, 3, 4])):
+            externals.append(gen_proc_shell(rng, n))
+    for mi, m in enumerate(mods):
+        m["modprocs"] = []
+        if rng.random() < knobs.get("p_submodule", 0.5):
+            mp = gen_proc_shell(rng, f"mp{mi}", "subroutine")
+            mp["nargs"], mp["args"], mp["modproc"] = 0, [], True
+            m["modprocs"].append(mp)
+    proj = {"modules": mods, "program": program, "knobs": knobs, "externals": externals}
     # bodies
     for m in mods:
-        for p in m["procs"]:
+        for p in m["procs"] + m["modprocs"]:
             fill_unit(rng, proj, m, p, host=None)
     if program:
         fill_unit(rng, proj, None, program["unit"], host=None)
@@ -857,6 +873,16 @@ def fill_unit(rng, proj, mod, unit, host):
                 env.arrays.append(a)
     env.scalars = list(unit["locals"]["scalars"]) + list(unit["args"])
     env.objs = list(lobjs) + [(o, t) for m in mods for (o, t) in m["objs"] if o not in seen]
+    # external procedures of the project, declared EXTERNAL in this unit in one of the accepted ways
+    unit["externals"] = []
+    pool = [e for e in proj.get("externals", []) if e["name"] not in seen]
+    for e in rng.sample(pool, min(len(pool), rng.choice([0, 1, 2, 3]))):
+        form = rng.choice(EXTERNAL_FORMS_FUNC if e["kind"] == "function" else EXTERNAL_FORMS_SUB)
+        unit["externals"].append((e["name"], e["kind"], form))
+        seen.add(e["name"])
+        (env.funcs if e["kind"] == "function" else env.subs).append((e["name"], e["nargs"]))
+        # referenced more often than the rest
+        (env.funcs if e["kind"] == "function" else env.subs).append((e["name"], e["nargs"]))
     if knobs.get("unknown_array"):
         env.unknown_arrays = ["w_imp", "z_blk"]
         unit["locals"]["implicit_arrays"] = ["w_imp", "z_blk"]
@@ -904,6 +930,8 @@ def truth_table(proj, mod, unit, host):
         scope.append((o, ("var", t, True)))
     if unit["kind"] == "function":
         scope.append((unit["name"], ("var", "integer", True)))
+    for n, k, _ in unit.get("externals", []):
+        scope.append((n, ("func", "@" + n, "integer") if k == "function" else ("proc", "@" + n)))
 
     def proc_ent(owner, p):
         pid = f"@{owner}.{p['name']}"
@@ -934,7 +962,7 @@ def truth_table(proj, mod, unit, host):
         if n not in seen:
             seen.add(n)
             uniq.append((n, e))
-    return (uniq, type_labels(proj))
+    return (uniq, type_labels(proj), [(e["name"], "@" + e["name"]) for e in proj.get("externals", [])])
 
 
 # ----------------------------------------------------------------------------- Fortran text
@@ -997,6 +1025,8 @@ def render_unit(rng, proj, mod, unit, host, ind, knobs):
         out.append(f"{ind}program {unit['name']}")
         for u in proj["program"]["uses"]:
             out.append(f"{ind}  use {u}")
+    elif unit.get("modproc"):
+        out.append(f"{ind}module procedure {unit['name']}")
     else:
         out.append(f"{ind}{k} {unit['name']}{args}")
     if not unit["locals"].get("implicit_arrays"):
@@ -1014,6 +1044,17 @@ def render_unit(rng, proj, mod, unit, host, ind, knobs):
         out.append(f"{ind}  type({t}) :: {o}")
     for a in loc.get("implicit_arrays", []):
         out.append(f"{ind}  dimension {a}(10)")
+    for n, _, form in unit.get("externals", []):
+        if form == "attr":
+            out.append(f"{ind}  integer, external :: {n}")
+        elif form == "pair":
+            out += [f"{ind}  integer {n}", f"{ind}  external {n}"]
+        elif form == "pair_colon":
+            out += [f"{ind}  integer :: {n}", f"{ind}  EXTERNAL :: {n}"]
+        elif form == "untyped_colon":
+            out.append(f"{ind}  external :: {n}")
+        else:
+            out.append(f"{ind}  external {n}")
     stmts = [r_stmt(s) for s in unit["body"]]
     if knobs.get("respace"):
         stmts = [knobs["respace"](x) for x in stmts]
@@ -1025,7 +1066,7 @@ def render_unit(rng, proj, mod, unit, host, ind, knobs):
         out.append(f"{ind}contains")
         for p in proj["program"]["procs"]:
             out += render_unit(rng, proj, None, p, proj["program"], ind + "  ", knobs)
-    out.append(f"{ind}end {k} {unit['name']}")
+    out.append(f"{ind}end {'procedure' if unit.get('modproc') else k} {unit['name']}")
     return out
 
 
@@ -1055,15 +1096,35 @@ def render_project(rng, proj, knobs=None):
             lines.append(f"  integer :: {a}(10)")
         for o, t in m["objs"]:
             lines.append(f"  type({t}) :: {o}")
+        for p in m.get("modprocs", []):
+            lines += ["  interface", f"    module subroutine {p['name']}()", f"    end subroutine {p['name']}", "  end interface"]
         if m["procs"]:
             lines.append("contains")
             for p in m["procs"]:
                 lines += render_unit(rng, proj, m, p, None, "  ", knobs)
         lines.append(f"end module {m['name']}")
         lines.append("")
+        if m.get("modprocs"):
+            lines.append(f"submodule ({m['name']}) s{m['name']}")
+            lines.append("contains")
+            for p in m["modprocs"]:
+                lines += render_unit(rng, proj, m, p, None, "  ", knobs)
+            lines.append(f"end submodule s{m['name']}")
+            lines.append("")
     if proj["program"]:
         lines += render_unit(rng, proj, None, proj["program"]["unit"], None, "", knobs)
-    return {"src/c08.f90": "\n".join(lines) + "\n"}
+    files = {"src/c08.f90": "\n".join(lines) + "\n"}
+    if proj.get("externals"):      # F77 style: procedures at the top level of their own file
+        ext = []
+        for e in proj["externals"]:
+            a = "(" + ", ".join(e["args"]) + ")"
+            if e["kind"] == "function":
+                ext += [f"integer function {e['name']}{a}"] + [f"  integer :: {x}" for x in e["args"]] + [f"  {e['name']} = 1"]
+            else:
+                ext += [f"subroutine {e['name']}{a}"] + [f"  integer :: {x}" for x in e["args"]]
+            ext += [f"end {e['kind']} {e['name']}", ""]
+        files["src/c08_ext.f90"] = "\n".join(ext) + "\n"
+    return files
 
 
 def units_of(proj):
@@ -1071,6 +1132,8 @@ def units_of(proj):
     for m in proj["modules"]:
         for p in m["procs"]:
             yield m, p, None, (m["name"], p["name"])
+        for p in m.get("modprocs", []):
+            yield m, p, None, ("s" + m["name"], p["name"])
     if proj["program"]:
         yield None, proj["program"]["unit"], None, ("main_p",)
         for p in proj["program"]["procs"]:
